@@ -27,6 +27,13 @@ class Stepper:
 
     def atom(self, text: str, pol: bool = True) -> bool:
         if text not in self.assign:
+            # identity and equality are symmetric: `b is a` is the atom `a is b` if that one is already known
+            for sep in (" is ", " == "):
+                if text.count(sep) == 1:
+                    a_, b_ = text.split(sep)
+                    sw = f"{b_}{sep}{a_}"
+                    if sw in self.assign:
+                        return self.assign[sw] if pol else not self.assign[sw]
             raise NeedAtom(text)
         return self.assign[text] if pol else not self.assign[text]
 
